@@ -22,37 +22,52 @@ CONSTANTS Sizes,      \* read sizes offered
           MaxOps,     \* operations per behaviour
           MaxGens,    \* generators alive at most
           Pattern,    \* "free" | "offsets": Read(1,k) for every k in 0..MaxPos, Fork, then reads on both
-          MaxPos
+                      \* "far": a generator restored from a crafted state far into the stream, then reads and forks
+          MaxPos,
+          TruncBug    \* FALSE; TRUE (negative control): Restore truncates the byte counter to 32 bits before dividing
 
 VARIABLES gens,   \* sequence of generators
           hist    \* operations with the prescribed result
 vars == <<gens, hist>>
 
-Gen(cnt, blk, off) == [cnt |-> cnt, blk |-> blk, off |-> off]
-CipherPos(g) == 64 * g.blk + g.off
+\* positions are kept as (block, offset) pairs: byte counts beyond 2^31 do not fit TLC's integers.
+\* cb, co: the byte counter of the Go code (bytesCounter = 64*cb + co); blk, off: the position of the ChaCha20 cipher
+Gen(cb, co, blk, off) == [cb |-> cb, co |-> co, blk |-> blk, off |-> off]
+Pos(b, o) == [b |-> b, o |-> o]
+Adv(b, o, k) == Pos(b + (o + k) \div 64, (o + k) % 64)
 
-Init == gens = <<Gen(0, 0, 0)>> /\ hist = <<>>
+Init == gens = <<Gen(0, 0, 0, 0)>> /\ hist = <<>>
 
 Read(i, k) ==
   /\ i \in 1..Len(gens)
-  /\ LET g == gens[i]  p == CipherPos(g) IN
-     /\ gens' = [gens EXCEPT ![i] = Gen(g.cnt + k, (p + k) \div 64, (p + k) % 64)]
-     /\ hist' = Append(hist, [op |-> "read", g |-> i, k |-> k, from |-> p, path |-> IF k <= 64 THEN "zero-message" ELSE "in-place"])
+  /\ LET g == gens[i]  c == Adv(g.cb, g.co, k)  p == Adv(g.blk, g.off, k) IN
+     /\ gens' = [gens EXCEPT ![i] = Gen(c.b, c.o, p.b, p.o)]
+     /\ hist' = Append(hist, [op |-> "read", g |-> i, k |-> k, from |-> Pos(g.blk, g.off), path |-> IF k <= 64 THEN "zero-message" ELSE "in-place"])
+
+\* RestoreChacha20PRG on a state whose byte counter is 64*cb + co (:171-212): block counter = bytes / 64, discard bytes % 64
+Restored(cb, co) == Gen(cb, co, IF TruncBug THEN cb % 67108864 ELSE cb, co)
 
 \* Store() of generator i followed by RestoreChacha20PRG: a new generator
 Fork(i) ==
   /\ i \in 1..Len(gens) /\ Len(gens) < MaxGens
-  /\ LET c == gens[i].cnt IN
-     /\ gens' = Append(gens, Gen(c, c \div 64, c % 64))
-     /\ hist' = Append(hist, [op |-> "fork", g |-> i, k |-> 0, from |-> c, path |-> "restore"])
+  /\ gens' = Append(gens, Restored(gens[i].cb, gens[i].co))
+  /\ hist' = Append(hist, [op |-> "fork", g |-> i, k |-> 0, from |-> Pos(gens[i].cb, gens[i].co), path |-> "restore"])
+
+\* a state crafted by hand (seed || customizer || counter) and restored: replaces generator 1
+FarBlocks == {67108863, 67108864, 67108865, 1073741831}      \* 2^26 - 1, 2^26, 2^26 + 1 (byte offsets around 2^32), 2^30 + 7
+Craft(b, o) ==
+  /\ Len(hist) = 0
+  /\ gens' = <<Restored(b, o)>>
+  /\ hist' = Append(hist, [op |-> "craft", g |-> 1, k |-> 0, from |-> Pos(b, o), path |-> "restore"])
 
 Allowed(op, i, k) ==
-  IF Pattern = "free" THEN TRUE
-  ELSE CASE Len(hist) = 0 -> op = "read" /\ i = 1
-         [] Len(hist) = 1 -> op = "fork" /\ i = 1
-         [] Len(hist) = 2 -> op = "read" /\ i = 2 /\ k = 200
-         [] Len(hist) = 3 -> op = "read" /\ i = 1 /\ k = 200
-         [] OTHER -> FALSE
+  CASE Pattern = "free" -> TRUE
+    [] Pattern = "far"  -> Len(hist) > 0
+    [] OTHER -> CASE Len(hist) = 0 -> op = "read" /\ i = 1
+                  [] Len(hist) = 1 -> op = "fork" /\ i = 1
+                  [] Len(hist) = 2 -> op = "read" /\ i = 2 /\ k = 200
+                  [] Len(hist) = 3 -> op = "read" /\ i = 1 /\ k = 200
+                  [] OTHER -> FALSE
 
 ReadSizes == IF Pattern = "offsets" /\ Len(hist) = 0 THEN 0..MaxPos ELSE Sizes \cup {200}
 
@@ -60,23 +75,25 @@ Next ==
   \/ /\ Len(hist) < MaxOps
      /\ \/ \E i \in 1..Len(gens), k \in ReadSizes : Allowed("read", i, k) /\ Read(i, k)
         \/ \E i \in 1..Len(gens) : Allowed("fork", i, 0) /\ Fork(i)
+        \/ (Pattern = "far" /\ \E b \in FarBlocks, o \in {0, 1, 63} : Craft(b, o))
   \/ (Len(hist) = MaxOps /\ UNCHANGED vars)
 Spec == Init /\ [][Next]_vars
 
 (* ---------- properties ---------- *)
 \* the cipher position always equals the byte counter: what Read returns starts where the previous output ended
-SameStream == \A i \in 1..Len(gens) : CipherPos(gens[i]) = gens[i].cnt /\ gens[i].off \in 0..63
-\* per generator, the returned intervals tile [start, cnt) without gap or overlap
+SameStream == \A i \in 1..Len(gens) : gens[i].blk = gens[i].cb /\ gens[i].off = gens[i].co /\ gens[i].off \in 0..63
+\* per generator, the returned intervals tile the stream from its starting position without gap or overlap
 RECURSIVE Tiles(_, _, _)
-Tiles(i, k, pos) ==   \* scanning hist from entry k: reads of generator i start at pos
-  IF k > Len(hist) THEN pos = gens[i].cnt
+Tiles(i, k, pos) ==   \* scanning hist from entry k: the next read of generator i must start at pos
+  IF k > Len(hist) THEN pos = Pos(gens[i].cb, gens[i].co)
   ELSE IF hist[k].op = "read" /\ hist[k].g = i
-       THEN hist[k].from = pos /\ Tiles(i, k + 1, pos + hist[k].k)
+       THEN hist[k].from = pos /\ Tiles(i, k + 1, Adv(pos.b, pos.o, hist[k].k))
        ELSE Tiles(i, k + 1, pos)
 \* index in hist of the fork that created generator i (i >= 2): the (i-1)-th fork
 ForkIdx(i) == CHOOSE k \in 1..Len(hist) : hist[k].op = "fork" /\ Cardinality({j \in 1..k : hist[j].op = "fork"}) = i - 1
 RestoreResumes == \A i \in 1..Len(gens) :
-                    IF i = 1 THEN Tiles(1, 1, 0) ELSE Tiles(i, ForkIdx(i) + 1, hist[ForkIdx(i)].from)
+                    IF i = 1 THEN (IF Len(hist) > 0 /\ hist[1].op = "craft" THEN Tiles(1, 2, hist[1].from) ELSE Tiles(1, 1, Pos(0, 0)))
+                    ELSE Tiles(i, ForkIdx(i) + 1, hist[ForkIdx(i)].from)
 
 Emit == Len(hist) = MaxOps => PrintT(<<"CASE", ToJson([hist |-> hist])>>)
 =============================================================================
